@@ -498,6 +498,10 @@ def related_questions(rng, ops):
                 calls.append({"mod": "intervals", "fn": "from_shorthand", "args": [twins.get(start, start), op["sh"], bool(op.get("up", True))]})
             elif op.get("kind") == "progression":
                 calls.append({"mod": "progressions", "fn": "to_chords", "args": [[op["sh"]], rng.choice(MAJOR_KEYS)]})
+        if op.get("op") == "from_chords":
+            # the value arithmetic a split goes through, asked with the operands the other way round
+            x, y = rng.choice([(8, 4), (2, 1), (4, 2), (16, 8), (4, 1), (8, 2), (1, 2), (4, 8), (2, 4)])
+            calls.append({"mod": "value", "fn": rng.choice(["subtract", "subtract", "add"]), "args": [x, y]})
         for spec in (op.get("notes") or []) if isinstance(op.get("notes"), list) else []:
             if isinstance(spec, (list, tuple)) and spec and isinstance(spec[0], str) and rng.random() < 0.3:
                 nm = spec[0]
